@@ -13,12 +13,12 @@ mkdir -p "$out"
 cleanup(){ git -C /repo worktree remove --force "$wt" >/dev/null 2>&1; rm -rf "$wt" "$out"; }
 trap cleanup EXIT
 if [ -n "$demo" ]; then
-  ( cd "$out" && PYTHONPATH=$wt/src MPLBACKEND=Agg timeout 600 /venv/bin/python "$(readlink -f "$demo")" >"$out/demo_clean.log" 2>&1 ); echo "demo_on_pristine_rc=$?"
+  ( cd "$out" && HYDRODIY_ROOT=$wt PYTHONPATH=$wt/src MPLBACKEND=Agg timeout 900 /venv/bin/python "$(readlink -f "$demo")" >"$out/demo_clean.log" 2>&1 ); echo "demo_on_pristine_rc=$?"
 fi
 if ! git -C "$wt" apply "$patch"; then echo "PATCH_DOES_NOT_APPLY"; exit 8; fi
 if git -C "$wt" diff --name-only | grep -qE '\.(c|h)$'; then "$wt/REBUILD.sh" >/dev/null 2>&1 || { echo "REBUILD_FAILED"; exit 7; }; fi
 if [ -n "$demo" ]; then
-  ( cd "$out" && PYTHONPATH=$wt/src MPLBACKEND=Agg timeout 600 /venv/bin/python "$(readlink -f "$demo")" >"$out/demo_mut.log" 2>&1 ); echo "demo_on_changed_rc=$?"; tail -3 "$out/demo_mut.log"
+  ( cd "$out" && HYDRODIY_ROOT=$wt PYTHONPATH=$wt/src MPLBACKEND=Agg timeout 900 /venv/bin/python "$(readlink -f "$demo")" >"$out/demo_mut.log" 2>&1 ); echo "demo_on_changed_rc=$?"; tail -3 "$out/demo_mut.log"
 fi
 if [ "${SKIP_BASELINE:-0}" != 1 ]; then /verif/tools/run_baseline.sh "$wt" | head -5; fi
 cd /verif
